@@ -166,13 +166,14 @@ theorem findFactors_spec (G : Nat → Nat) (pp : Nat → Bool) : ∀ (fuel lo le
     1 ≤ len → len < fuel →
     (∀ i j, lo ≤ i → i ≤ j → j ≤ lo + len - 1 → G i ∣ G j) → (∀ i, lo ≤ i → i ≤ lo + len - 1 → 0 < G i) →
     ∃ facs, findFactors G pp fuel lo len (G lo) (G (lo + len - 1)) acc = some (acc ++ facs) ∧
-      facs.prod * G lo = G (lo + len - 1) ∧ ∀ f ∈ facs, 1 < f
+      facs.prod * G lo = G (lo + len - 1) ∧ (∀ f ∈ facs, 1 < f) ∧
+      ∀ f ∈ facs, pp f = true ∨ ∃ j, lo ≤ j ∧ j + 1 ≤ lo + len - 1 ∧ f * G j = G (j + 1)
   | 0, _, _, _, _, h, _, _ => by omega
   | f + 1, lo, len, acc, hlen, hfuel, hchain, hpos => by
     rw [findFactors]
     by_cases heq : G lo = G (lo + len - 1)
     · rw [if_pos heq]
-      exact ⟨[], by simp, by simpa using heq, by simp⟩
+      exact ⟨[], by simp, by simpa using heq, by simp, by simp⟩
     · rw [if_neg heq]
       have hp1 : 0 < G lo := hpos lo (Nat.le_refl _) (by omega)
       have hdvd : G lo ∣ G (lo + len - 1) := hchain lo (lo + len - 1) (Nat.le_refl _) (by omega) (Nat.le_refl _)
@@ -198,7 +199,21 @@ theorem findFactors_spec (G : Nat → Nat) (pp : Nat → Bool) : ∀ (fuel lo le
       simp only [if_neg hassert]
       by_cases hstop : (pp (G (lo + len - 1) / G lo) || decide (len ≤ 2)) = true
       · rw [if_pos hstop]
-        exact ⟨[G (lo + len - 1) / G lo], rfl, by simpa using hmul, by simpa using hpgt⟩
+        refine ⟨[G (lo + len - 1) / G lo], rfl, by simpa using hmul, by simpa using hpgt, ?_⟩
+        intro f hf
+        simp only [List.mem_singleton] at hf
+        subst hf
+        simp only [Bool.or_eq_true, decide_eq_true_eq] at hstop
+        rcases hstop with h | h
+        · exact Or.inl h
+        · right
+          have hlen2 : len = 2 := by
+            by_contra hne
+            have : len = 1 := by omega
+            subst this
+            simp at heq
+          subst hlen2
+          exact ⟨lo, Nat.le_refl _, by omega, by simpa using hmul⟩
       · rw [if_neg hstop]
         have hlen3 : 3 ≤ len := by
           simp only [Bool.or_eq_true, decide_eq_true_eq, not_or] at hstop; omega
@@ -206,22 +221,30 @@ theorem findFactors_spec (G : Nat → Nat) (pp : Nat → Bool) : ∀ (fuel lo le
         have hmidlt : len % 2 < 2 := Nat.mod_lt _ (by decide)
         -- left half: vals[lo ..= lo+mid]
         have e1 : lo + (len / 2 + 1) - 1 = lo + len / 2 := by omega
-        obtain ⟨facs1, hf1, hprod1, hgt1⟩ := findFactors_spec G pp f lo (len / 2 + 1) acc (by omega) (by omega)
+        obtain ⟨facs1, hf1, hprod1, hgt1, hsep1⟩ := findFactors_spec G pp f lo (len / 2 + 1) acc (by omega) (by omega)
           (fun i j hi hij hj => hchain i j hi hij (by omega)) (fun i hi hj => hpos i hi (by omega))
-        rw [e1] at hf1 hprod1
+        rw [e1] at hf1 hprod1 hsep1
         -- right half: vals[lo+mid ..]
         have e2 : lo + len / 2 + (len - len / 2) - 1 = lo + len - 1 := by omega
-        obtain ⟨facs2, hf2, hprod2, hgt2⟩ := findFactors_spec G pp f (lo + len / 2) (len - len / 2) (acc ++ facs1)
+        obtain ⟨facs2, hf2, hprod2, hgt2, hsep2⟩ := findFactors_spec G pp f (lo + len / 2) (len - len / 2) (acc ++ facs1)
           (by omega) (by omega)
           (fun i j hi hij hj => hchain i j (by omega) hij (by omega)) (fun i hi hj => hpos i (by omega) (by omega))
-        rw [e2] at hf2 hprod2
+        rw [e2] at hf2 hprod2 hsep2
         simp only [hf1, hf2]
-        refine ⟨facs1 ++ facs2, by simp [List.append_assoc], ?_, ?_⟩
+        refine ⟨facs1 ++ facs2, by simp [List.append_assoc], ?_, ?_, ?_⟩
         · rw [List.prod_append, ← hprod2, ← hprod1]; ring
         · intro x hx
           rcases List.mem_append.mp hx with h | h
           · exact hgt1 x h
           · exact hgt2 x h
+        · intro x hx
+          rcases List.mem_append.mp hx with h | h
+          · rcases hsep1 x h with hp | ⟨j, h1, h2, h3⟩
+            · exact Or.inl hp
+            · exact Or.inr ⟨j, h1, by omega, h3⟩
+          · rcases hsep2 x h with hp | ⟨j, h1, h2, h3⟩
+            · exact Or.inl hp
+            · exact Or.inr ⟨j, by omega, h2, h3⟩
 
 theorem divAll_spec : ∀ (facs : List Nat) (n : Nat), (∀ f ∈ facs, 0 < f) → divAll n facs = some (n / facs.prod)
   | [], n, _ => by simp [divAll]
@@ -234,19 +257,26 @@ theorem gcdFactors_spec (n : Nat) (vals : List Nat) (pp : Nat → Bool) (hn : 0 
     (hchain : ∀ i j, i ≤ j → j < vals.length → Nat.gcd n (vals.getD i 0) ∣ Nat.gcd n (vals.getD j 0)) :
     ∃ facs rest, gcdFactors n vals pp = some (facs, rest) ∧
       facs.prod * Nat.gcd n (vals.getD 0 0) = Nat.gcd n (vals.getD (vals.length - 1) 0) ∧
-      facs.prod * rest = n ∧ ∀ f ∈ facs, 1 < f := by
+      facs.prod * rest = n ∧ (∀ f ∈ facs, 1 < f) ∧
+      ∀ f ∈ facs, pp f = true ∨ ∃ j, j + 1 < vals.length ∧
+        f * Nat.gcd n (vals.getD j 0) = Nat.gcd n (vals.getD (j + 1) 0) := by
   have hlen : 1 ≤ vals.length := by
     cases vals with
     | nil => exact absurd rfl hne
     | cons a t => simp
-  obtain ⟨facs, hf, hprod, hgt⟩ := findFactors_spec (fun i => Nat.gcd n (vals.getD i 0)) pp (vals.length + 2) 0
+  obtain ⟨facs, hf, hprod, hgt, hsep⟩ := findFactors_spec (fun i => Nat.gcd n (vals.getD i 0)) pp (vals.length + 2) 0
     vals.length [] hlen (by omega)
     (fun i j _ hij hj => hchain i j hij (by omega)) (fun i _ _ => Nat.gcd_pos_of_pos_left _ hn)
-  simp only [Nat.zero_add, List.nil_append] at hf hprod
+  simp only [Nat.zero_add, List.nil_append] at hf hprod hsep
   have hdiv := divAll_spec facs n (fun f hf' => by have := hgt f hf'; omega)
   have hdvd : facs.prod ∣ n :=
     Dvd.dvd.trans ⟨_, hprod.symm⟩ (Nat.gcd_dvd_left n _)
-  refine ⟨facs, n / facs.prod, ?_, hprod, Nat.mul_div_cancel' hdvd, hgt⟩
+  refine ⟨facs, n / facs.prod, ?_, hprod, Nat.mul_div_cancel' hdvd, hgt, ?_⟩
+  swap
+  · intro f hf'
+    rcases hsep f hf' with h | ⟨j, _, h2, h3⟩
+    · exact Or.inl h
+    · exact Or.inr ⟨j, by omega, h3⟩
   unfold gcdFactors
   cases vals with
   | nil => exact absurd rfl hne
